@@ -103,6 +103,9 @@ fn is_html_integration_point_in_svg(tag_name: LocalNameHash) -> bool {
 pub(crate) struct TreeBuilderSimulator {
     ns_stack: Vec<Namespace>,
     current_ns: Namespace,
+    /// Namespace of the element of the last start tag. It differs from `current_ns` (the
+    /// namespace of its content) for integration points, e.g. `<foreignObject>` is an SVG element.
+    start_tag_ns: Namespace,
     /// For each HTML namespace entered through an integration point: the name of that
     /// integration point element, and how many HTML elements of the same name are open in it.
     integration_points: Vec<(LocalNameHash, usize)>,
@@ -120,6 +123,7 @@ impl TreeBuilderSimulator {
         let mut simulator = Self {
             ns_stack: Vec::with_capacity(DEFAULT_NS_STACK_CAPACITY),
             current_ns: Namespace::Html,
+            start_tag_ns: Namespace::Html,
             integration_points: Vec::new(),
             leave_ns_before_next_tag: false,
             ambiguity_guard: AmbiguityGuard::default(),
@@ -141,7 +145,19 @@ impl TreeBuilderSimulator {
 
         self.leave_self_closed_foreign_root();
 
-        Ok(if tag_name == Tag::Svg {
+        let feedback = self.get_feedback_for_start_tag_in_current_ns(tag_name);
+
+        // NOTE: feedback that needs the lexeme may still change it.
+        self.start_tag_ns = self.current_ns;
+
+        Ok(feedback)
+    }
+
+    fn get_feedback_for_start_tag_in_current_ns(
+        &mut self,
+        tag_name: LocalNameHash,
+    ) -> TreeBuilderFeedback {
+        if tag_name == Tag::Svg {
             self.enter_foreign_root(Namespace::Svg)
         } else if tag_name == Tag::Math {
             self.enter_foreign_root(Namespace::MathML)
@@ -157,7 +173,7 @@ impl TreeBuilderSimulator {
             }
 
             get_text_type_adjustment(tag_name)
-        })
+        }
     }
 
     pub fn get_feedback_for_end_tag(&mut self, tag_name: LocalNameHash) -> TreeBuilderFeedback {
@@ -197,6 +213,12 @@ impl TreeBuilderSimulator {
         self.current_ns
     }
 
+    /// Namespace of the element of the last start tag.
+    #[inline]
+    pub const fn start_tag_ns(&self) -> Namespace {
+        self.start_tag_ns
+    }
+
     #[inline]
     fn enter_ns(&mut self, ns: Namespace) -> TreeBuilderFeedback {
         self.ns_stack.push(ns);
@@ -211,6 +233,7 @@ impl TreeBuilderSimulator {
             expect_tag!(lexeme, StartTag { self_closing, .. } => {
                 let outer_ns = this.current_ns;
                 let feedback = this.enter_ns(ns);
+                this.start_tag_ns = ns;
 
                 if self_closing {
                     this.leave_ns_before_next_tag = true;
@@ -327,7 +350,9 @@ impl TreeBuilderSimulator {
                             || eq_case_insensitive(&name, b"size")
                             || eq_case_insensitive(&name, b"face")
                         {
-                            return this.leave_ns();
+                            let feedback = this.leave_ns();
+                            this.start_tag_ns = this.current_ns;
+                            return feedback;
                         }
                     }
                 });
